@@ -301,10 +301,25 @@ def _helpers(ctx: Ctx, r: RuleResult, pc, self_t: Term):
     qc = ctx.model.cls('HplQuantifier', 'D1')
     msgs = set()
     for fld in ('domain', 'condition'):
-        for v in qc.all_validators(fld):
+        # the validators and the helpers (methods of the class, functions of the module) they hand the work to
+        todo_f = list(qc.all_validators(fld))
+        seen_f = set()
+        while todo_f:
+            v = todo_f.pop()
+            if v.key in seen_f or len(seen_f) > 12:
+                continue
+            seen_f.add(v.key)
             for n in ast.walk(v.node):
                 if isinstance(n, ast.Raise) and n.exc is not None and 'HplSanityError' in ast.unparse(n.exc):
-                    msgs.add((fld, n.lineno))
+                    msgs.add((v.key, n.lineno))
+                if isinstance(n, ast.Call) and isinstance(n.func, ast.Attribute) and isinstance(n.func.value, ast.Name) and n.func.value.id == 'self':
+                    h = qc.resolve(n.func.attr)
+                    if h is not None and h.kind == 'method' and not h.name.startswith('__') and h.name not in ('_type_check', 'but', 'cast'):
+                        todo_f.append(h)
+                if isinstance(n, ast.Call) and isinstance(n.func, ast.Name):
+                    rr = ctx.model.resolve_name(v.module, n.func.id)
+                    if rr and rr[0] == 'func' and isinstance(rr[1], FunctionInfo) and rr[1].module is v.module:
+                        todo_f.append(rr[1])
     if len(msgs) >= 3:
         r.ok('HplQuantifier: three hygiene errors (variable in own domain; re-binding; variable unused)')
     else:
